@@ -19,8 +19,8 @@ def bounded(tier, seed, fallback_for):
 
 MANIFEST = {
     "category": "exploration",
-    "technique": "bounded stand-in: the statement evaluated on generated program texts through the real lexers and pipeline (contract-based proof of the pipeline functions where listed in evidence)",
-    "text": 'Totality is checked by running the real lexer+pipeline on malformed texts; the safety obligations of the I/O shell functions are discharged separately where listed.',
-    "note": 'bounded for texts; byte-level decoding and path handling are covered by the contracts of C12/C03 shell functions when listed in evidence',
+    "technique": "contracts on the real pipeline functions discharged by z3/cvc5 (pyvc); bounded stand-in on generated program texts through the real lexers for the whole statement",
+    "text": 'Exception-freedom of the I/O shell is discharged as `raises` clauses (_read_file, check_file, check_command, _handle_file_path, _read_cached_report); totality of the analysis on arbitrary texts is explored (bounded): prefixes, suffixes, line edits, token soups, structured sketches in 7 languages, and real check/scan runs on trees with binary, Latin-1 and oddly named files from several working directories.',
+    "note": 'bounded for the analysis core (Pygments, the pattern engine and scope building are outside the discharged perimeter); termination of the matcher is exercised, not proved',
     "design_ref": "DESIGN.md §6 C03",
 }
